@@ -18,7 +18,8 @@ PLANS["C01"] = {
     "rule": "stratified (pixel type x pass direction x dst extent 1..40 x kernel length 1..24) then seeded random "
             "resize cases (13 pixel types, 7 filters x Convolution/Interpolation/SuperSampling, valid crops of every "
             "kind, contents random/extreme/checkerboard/impulse), each run on back-ends None/Sse4_1/Avx2 and compared "
-            "per sample with the f64 reference model and its analytic bound; non-trivial = a convolution with a kernel "
+            "per sample with the f64 reference model and its analytic bound (every fourth Convolution/Interpolation case on a Resizer that has just "
+            "served the sibling algorithm with the same filter and geometry); non-trivial = a convolution with a kernel "
             "of >= 2 taps is executed on at least one axis; distinct = distinct case descriptor",
     "assumptions": ["the f64 reference model in harness/src/refmodel.rs states the ideal filter of the property",
                     "NEON/WASM kernels are not executable on this host"],
